@@ -177,6 +177,101 @@ def corpus_file(name):
     return out
 
 
+def geometry(tier, rng):
+    """Layouts whose integer parameters (indentation, widths of blank-only lines, trailing padding, word and comment
+    lengths, numbers of marker lines) are swept SYSTEMATICALLY through every value around the look-ahead sizes of the
+    input back-ends (BufferedInput: 16 characters; plain-scalar chunks: 128), in the three break styles.  Random soups
+    practically never produce "exactly 15 spaces on a blank line inside a block scalar indented 20"; the paths that
+    depend on what is left in the look-ahead buffer only show on such inputs.  quick: a stride-sampled subset
+    (every value of each single parameter still occurs), thorough: the full products."""
+    full = tier != "quick"
+    out = []
+    NL = ["\n", "\r\n", "\r"]
+    R = list(range(0, 36)) + [47, 48, 49, 63, 64, 65, 127, 128, 129]
+    small = [0, 1, 2, 7, 13, 14, 15, 16, 17, 18, 31, 32, 33]
+
+    def pick(seq, k):
+        """all of seq (thorough) or k values of it including both ends, drawn deterministically from rng (quick)"""
+        seq = list(seq)
+        if full or len(seq) <= k:
+            return seq
+        return sorted(set([seq[0], seq[-1]] + rng.sample(seq, k - 2)))
+
+    for nl in NL:
+        # block scalars: content indentation c, a blank-only line of b spaces between two content lines, line length l
+        for c in R:
+            for b in pick(R, 9):
+                for (ind, style) in (("|", 0), (">", 1), ("|+", 2), (">-", 3)):
+                    if not full and (c + b + style) % 4:
+                        continue
+                    out.append(ind + nl + " " * c + "a" + nl + " " * b + nl + " " * c + "b" + nl)
+                    if c >= 2:
+                        out.append("k:" + nl + " " * (c - 1) + "j: " + ind + nl + " " * c + "a" + nl + " " * b + nl + " " * c + "b" + nl
+                                   + " " * (c - 1) + "m: n" + nl)
+                        out.append("- " + ind + nl + " " * c + "a" + nl + " " * c + "b" + nl + " " * b + nl)
+        for c in R:
+            for l in pick(small, 5):
+                out.append("k: |" + nl + " " * (c + 1) + "x" * l + nl + " " * (c + 1) + "y" * (l + 1) + nl)
+                out.append("|" + nl + " " * c + "\u00e9" * l + nl + " " * c + "z" + nl + "..." + nl + "w" + nl)
+                if c in range(1, 10):
+                    out.append("k: |" + str(c) + nl + " " * c + " " * l + "x" + nl + " " * c + "y" + nl)
+        # a block scalar without content, followed by a line of the enclosing collections (indentation p, sibling at q)
+        for p in pick(range(0, 20), 8):
+            for q in range(0, p + 3):
+                for ind in ("|", ">", "|+", "|-"):
+                    if not full and (p + q + len(ind)) % 2:
+                        continue
+                    out.append("a:" + nl + " " * p + " b: " + ind + nl + " " * q + "c: d" + nl)
+                    out.append("a:" + nl + " " * p + " - " + ind + nl + " " * q + "- x" + nl)
+                    out.append("a:" + nl + " " * p + " b: " + ind + nl + nl + " " * q + "c: d" + nl)
+        # multi-line plain and quoted scalars: t trailing blanks, a blank-only line of j blanks, continuation indent i
+        for t in pick(R, 8):
+            for j in pick(R, 8):
+                for i in pick(small[1:], 4):
+                    for (o, cl) in (("", ""), ("\"", "\""), ("'", "'")):
+                        out.append("k: " + o + "abc" + " " * t + nl + " " * j + nl + " " * i + "def" + cl + nl + "m: n" + nl)
+                    out.append("k: \"abc" + " " * t + "\\" + nl + " " * j + nl + " " * i + "def\"" + nl)
+                    out.append("k: abc" + "\t" * (t % 3) + " " * t + nl + "\t" * (j % 2) + " " * j + nl + " " * i + "def" + nl)
+        for i in R:
+            out.append("k:" + nl + " " * (i + 1) + "abc" + nl + " " * (i + 1) + nl + " " * (i + 1) + "def" + nl)
+            out.append("- [" + nl + " " * i + "foo" + nl + " " * i + "bar" + nl + " " * i + "]" + nl)
+            out.append("k: {" + nl + " " * i + "a: foo" + nl + "\t" + " " * i + "bar" + nl + "  }" + nl)
+            out.append("- [" + nl + " foo" + nl + " " * (i % 3) + "\tbar" + nl + " ]" + nl)
+        # words, comments, properties and directives of every length around the buffer sizes
+        for a in R:
+            for b in pick(small, 4):
+                out.append("k: " + "p" * a + "#" + "q" * b + nl)
+                out.append("k: v" + " " * a + "#" + "c" * b + nl + "m: n" + nl)
+                out.append("k: v" + "\t" * (1 + a % 3) + "#" + "c" * b + nl)
+                out.append("!" + "t" * a + " x" + nl)
+                out.append("&" + "a" * a + " x" + nl + "*" + "a" * a + nl)
+                out.append("%TAG !" + "h" * a + "! tag:" + "u" * b + nl + "--- !" + "h" * a + "!s x" + nl)
+                out.append("%" + "D" * (a + 1) + " " + "p" * b + nl + "---" + nl)
+                out.append("[" + " " * a + "a" + " " * b + "," + nl + " " * b + "b" + " " * a + "]" + nl)
+                out.append("\"" + "d" * a + "\\x41" + "e" * b + "\"" + nl)
+                out.append("? " + "k" * a + nl + ":" + " " * (b + 1) + "v" + nl)
+        # non-ASCII letters and digits in every token class that is scanned by a character-class loop
+        for w in ("\u00e9", "\u00fc\u00df", "\u65e5\u672c", "\u0661", "\U0001d7d9", "a\u00e9", "\u00e9a"):
+            for tail in (" one", ""):
+                out += ["- !" + w + tail + nl + "- two" + nl, "!" + w + "!x y" + nl, "%TAG !" + w + "! tag:x," + nl + "--- !" + w + "!s v" + nl,
+                        "%" + w + " 1" + nl + "--- a" + nl, "%FOO" + w + " bar" + nl + "--- a" + nl, "&" + w + tail + nl, "- &" + w + " a" + nl + "- *" + w + nl,
+                        "!<" + w + ">" + tail + nl, "!!" + w + tail + nl, "k: v # " + w + nl + "m: n" + nl, "# " + w + nl + "a: b" + nl,
+                        "- |" + nl + " " + w + nl + "- x" + nl, "'" + w + "': \"" + w + "\"" + nl + w + ": " + w + nl, "%YAML 1." + w + nl + "---" + nl]
+    # runs of document markers between, before and behind documents
+    A = ["a: 1\n", "- x\n", "", "# c\n", "--- a\n", "a\n...\n", "%YAML 1.2\n--- a\n", "|\n x\n", "[a]\n", "--- |\n", "&x a\n",
+         "%TAG !e! tag:e,\n--- !e!a b\n"]
+    for a in A:
+        for b in A + ["*x\n", "!e!c d\n"]:
+            for k in range(0, 5):
+                if not full and (len(a) + len(b) + k) % 3 == 1:
+                    continue
+                out.append(a + "...\n" * k + b)
+                out.append(a + "...\n# c\n" * k + b)
+                if k:
+                    out.append(a + "...\n" * k + "---\n" + b)
+    return out
+
+
 def parse_space(tier, rng):
     """The C01 input space: (label, [strings])"""
     groups = []
@@ -188,6 +283,7 @@ def parse_space(tier, rng):
         groups.append(("flow-soups", flow_soups(5000, rng)))
         groups.append(("suite-variants", suite_variants()))
         groups.append(("mutated-suite", mutated_suite(3000, rng)))
+        groups.append(("geometry", geometry(tier, rng)))
     else:
         groups.append(("exhaustive<=4/24", list(exhaustive(INDICATORS, 4))))
         groups.append(("soups", soups(150000, rng)))
@@ -195,6 +291,7 @@ def parse_space(tier, rng):
         groups.append(("flow-soups", flow_soups(120000, rng)))
         groups.append(("suite-variants", suite_variants()))
         groups.append(("mutated-suite", mutated_suite(60000, rng)))
+        groups.append(("geometry", geometry(tier, rng)))
     return groups
 
 
